@@ -1,3 +1,5 @@
+//go:build hcons
+
 package main
 
 // C19: ordered maps against the reference automaton exported by TLC (OMapProduct.tla, Export = TRUE).
